@@ -131,7 +131,7 @@ type rtInfo struct {
 
 type bstats struct {
 	scenarios, histories, placements, intra, split, rts, injected, okCalls, refusals, lookupFails, otherErrs int
-	maxrts                                                                                                  int
+	maxrts                                                                                                   int
 }
 
 var bst bstats
@@ -234,29 +234,29 @@ func scenarioOf(seed uint64, s int) *bscn {
 
 // world is the wallet + chain of one scenario; round() prepares one placement.
 type world struct {
-	h        *hist.H
-	ctl      *sched.Ctl
-	vdb      *viewDB
-	wi       *hist.WInfo
-	as       []*hist.AddrInfo
-	stranger []byte
-	funds    []coin // mature coins of the stranger, oldest first
-	young    []coin // coinbases of the stranger not yet known to be mature (with their height in val2)
-	youngH   []uint64
-	reserve  bool
+	h         *hist.H
+	ctl       *sched.Ctl
+	vdb       *viewDB
+	wi        *hist.WInfo
+	as        []*hist.AddrInfo
+	stranger  []byte
+	funds     []coin // mature coins of the stranger, oldest first
+	young     []coin // coinbases of the stranger not yet known to be mature (with their height in val2)
+	youngH    []uint64
+	reserve   bool
 	reorgMine bool
-	coins    []coin // the funded coins of this round, largest first
-	extra    []wire.OutPoint
-	reserved []wire.OutPoint
-	pending  []*massutil.Block
-	call     func() (*wire.MsgTx, massutil.Amount, error)
-	out      int64
-	nout     int
-	userfee  int64
-	payload  int
-	ins      []wire.OutPoint // explicit inputs (MAN)
-	buf      bytes.Buffer
-	bw       *bufio.Writer
+	coins     []coin // the funded coins of this round, largest first
+	extra     []wire.OutPoint
+	reserved  []wire.OutPoint
+	pending   []*massutil.Block
+	call      func() (*wire.MsgTx, massutil.Amount, error)
+	out       int64
+	nout      int
+	userfee   int64
+	payload   int
+	ins       []wire.OutPoint // explicit inputs (MAN)
+	buf       bytes.Buffer
+	bw        *bufio.Writer
 }
 
 const strangerCb = 40000000000
